@@ -393,8 +393,8 @@ func runC15(c *fw.Ctx) {
 					}
 					src = " //" + s
 				} else {
-					if strings.Contains(s, "*/") || strings.HasSuffix(s, "*") {
-						continue // would close the annotation early
+					if strings.Contains(s, "*/") {
+						continue // would close the annotation early (a text ending in '*' does not: "a**/" closes at its last two bytes)
 					}
 					src = " /*" + s + "*/"
 				}
